@@ -27,6 +27,8 @@ def main():
                 best, tier = "violation", k
                 caught += 1
                 break
+            if v["exit"] == 2:
+                best, tier = "**not reported**: undecided (exit 2)", k
         s = re.sub(r"\s+", " ", m.get("summary") or "")[:150].replace("|", "\\|")
         nd = re.sub(r"\s+", " ", m.get("needs_to_manifest") or "")[:110].replace("|", "\\|")
         rows.append("| %s | %s | %s | %s | %s |" % (d, s, nd, best, tier))
